@@ -204,6 +204,19 @@ def check_theorems(prop_id, timeout=1500):
     return res
 
 
+def thorough_coqchk(res, prop_id, timeout=2400):
+    """Thorough tier: re-check the compiled property file and everything it depends on with coqchk and
+    record the axioms it reports (expected: none)."""
+    rc, out = coqchk(prop_id, timeout=timeout)
+    tail = out[-1500:]
+    ok = rc == 0
+    res.coverage["coqchk"] = {"ok": ok, "output_tail": tail}
+    if not ok:
+        res.violation("coqchk rejects the compiled development of %s" % prop_id,
+                      {"theorem_or_correspondence": "coqchk PV.props.%s" % prop_id, "log": tail}, no_failing_input=True)
+    return ok
+
+
 def coqchk(prop_id, timeout=1800):
     rc, out = sh("timeout %d coqchk -silent -o -Q . PV PV.props.%s" % (timeout, prop_id), cwd=COQ, timeout=timeout + 30)
     return rc, out
